@@ -31,12 +31,13 @@ class GeomCase:
     functions = tuple(CT + f for f in ("im2col", "im2col_v2", "im2col_fast", "col2im", "col2im_v2", "col2im_fast", "extract_windows", "place_windows",
                                        "get_im2col_indices", "get_conv2d_output_size"))
 
-    def __init__(self, N, C, gh, gw, int_args=False):
+    def __init__(self, N, C, gh, gw, int_args=False, layout="C"):
         self.N, self.C, self.gh, self.gw = N, C, gh, gw
         self.int_args = int_args
+        self.layout = layout            # memory layout of the input array: C-contiguous, Fortran-ordered, or a strided view of a larger buffer
         self.name = "conv_tools[geometry]"
         (H, kh, sh, ph, dh), (W, kw, sw, pw, dw) = gh, gw
-        self.key = {"shape": (N, C, H, W), "kernel": (kh, kw), "stride": (sh, sw), "padding": (ph, pw), "dilation": (dh, dw), "int_args": int_args}
+        self.key = {"shape": (N, C, H, W), "kernel": (kh, kw), "stride": (sh, sw), "padding": (ph, pw), "dilation": (dh, dw), "int_args": int_args, "layout": layout}
 
     def run(self, seed):
         res = {"name": self.name, "key": dict(self.key), "obligations": 0, "discharged": 0, "backends": {}, "paths": 1, "solver_s": 0.0,
@@ -92,7 +93,7 @@ class GeomCase:
                     return
 
         with shim.symbolic(eps="native"):
-            x = symarr("x", (N, C, H, W))
+            x = _layout(symarr("x", (N, C, H, W)), self.layout)
             pv = S(sess.var("pv"))
             # ---- specification in index notation
             xpad = np.empty((N, C, H + 2 * ph, W + 2 * pw), dtype=object)
@@ -167,6 +168,14 @@ class GeomCase:
                 else:
                     res["errors"].append("%s: symbolic run raised %s: %s but the native run did not\n%s" % (self.key, type(e).__name__, e, traceback.format_exc()[-1200:]))
 
+    def on_crash(self, why):
+        """the symbolic run killed the interpreter (e.g. a strided view over object pointers read out of bounds): decide on floats"""
+        rep = self._native("symbolic run crashed: " + why)
+        if rep.get("reproduced"):
+            return {"failure": {"obligation": CT + "variants_agree_on_any_memory_layout", "what": "native float64 run on a %s-layout input: %s"
+                                % (self.layout, rep.get("native_facts") or rep.get("native_exception")), "reproduced": True, "replay": rep}}
+        return {"native": rep}
+
     def _native(self, name):
         """native float64 replay of all agreement / adjointness clauses"""
         from synapgrad import conv_tools as ct
@@ -177,7 +186,7 @@ class GeomCase:
             k, s_, p, d = kh, sh, ph, dh
         else:
             k, s_, p, d = (kh, kw), (sh, sw), (ph, pw), (dh, dw)
-        x = rng.randn(N, C, H, W)
+        x = _layout(rng.randn(N, C, H, W), self.layout)
         rep = {"geometry": self.key, "clause": name}
         try:
             a = ct.im2col(x, k, d, s_, p, 0.5, as_unfold=True)
@@ -198,6 +207,20 @@ class GeomCase:
         return rep
 
 
+def _layout(x, layout):
+    """same values, different memory layout (the routines must not depend on it)"""
+    if layout == "F":
+        return np.asfortranarray(x)
+    if layout == "view":
+        big = np.empty(x.shape[:-1] + (2 * x.shape[-1],), dtype=x.dtype)
+        big[..., ::2] = x
+        big[..., 1::2] = x[..., ::-1] if x.dtype != object else 0
+        return big[..., ::2]
+    if layout == "T":
+        return np.ascontiguousarray(x.transpose(3, 2, 1, 0)).transpose(3, 2, 1, 0)
+    return x
+
+
 def geometry_cases(tier):
     R = REP_1D
     cases = []
@@ -208,6 +231,10 @@ def geometry_cases(tier):
             cases.append(GeomCase(N, C, a, R[j]))
     for g in [(3, 2, 1, 0, 1), (4, 2, 2, 1, 1), (5, 3, 1, 1, 2)]:
         cases.append(GeomCase(1, 2, g, g, int_args=True))
+    # inputs that are not C-contiguous (Fortran order, transposed buffers, strided views)
+    for layout in ("F", "T", "view"):
+        for (a, b), (N, C) in zip([(R[1], R[2]), (R[3], R[6]), (R[7], R[4]), (R[8], R[0])], [(2, 2), (1, 2), (2, 1), (1, 1)]):
+            cases.append(GeomCase(N, C, a, b, layout=layout))
     return cases
 
 
